@@ -209,9 +209,31 @@ def r09_3(prog: Program, rep: Report):
     f = prog.function(f"{MOD}._level")
     t = ("param", f.params[0])
     ys = []
-    for p in P.paths_of(prog, f):
+    fps = P.paths_of(prog, f)
+    for p in fps:
         ys = [e[1] for e in p.events if e[0] == "yield"]
     args_ok = hints_ok = False
+
+    def hints_src(src):
+        if T.is_call_to(src, f"{C.INSP}.get_type_hints") and src[2][:1] == (t,):
+            ex = dict(src[3]).get("exhaustive") or (src[2][1] if len(src[2]) > 1 else None)
+            return ex is not None and T.is_call_to(ex, f"{C.INSP}.isstructuredtype") and ex[2] == (t,)
+        return False
+
+    # explicit loops: `for a in args(t): yield None, a` / `for k, v in hints.items(): yield k, v`, nothing filtered
+    full = max(fps, key=lambda p: sum(1 for e in p.events if e[0] == "yield"), default=None)
+    if full is not None:
+        filtered = any(T.contains(g, lambda x: x[0] in ("elem", "key", "value")) for g, _ in full.guards())
+        for e in full.events:
+            if e[0] != "yield" or filtered:
+                continue
+            y = e[1]
+            if y[0] == "tuple" and len(y[1]) == 2:
+                a, b = y[1]
+                if a == ("const", None) and b[0] == "elem" and T.is_call_to(b[1], f"{C.INSP}.args") and b[1][2] == (t,):
+                    args_ok = True
+                if a[0] == "key" and b[0] == "value" and a[1] == b[1] and hints_src(a[1]):
+                    hints_ok = True
     for y in ys:
         if y[0] == "elem" and y[1][0] == "comp":
             c = y[1]
@@ -239,12 +261,12 @@ def r09_4(prog: Program, rep: Report):
     ref_ok = plain_ok = False
     for p, r in P.returns(P.paths_of(prog, f)):
         isref = [pol for g, pol in p.guards() if T.is_call_to(g, "builtins.isinstance") and g[2][0] == t]
-        if isref == [True]:
+        if isref and isref[-1] is True and not any(isref[:-1]):
             if T.is_call_to(r, f.qualname) and r[2] and T.is_call_to(r[2][0], "typelib.py.refs.evaluate"):
                 a = r[2][0][2][0]
                 if a == t or T.contains(a, lambda s: T.is_call_to(s, "typelib.py.refs.forwardref") and s[2][:1] == (t,)):
                     ref_ok = True
-        elif isref == [False]:
+        elif isref and not any(isref):
             it = ("call", ("ref", f"{MOD}.itertypes"), (t,), ())
             if r == ("list", (("star", it),)) or (T.is_call_to(r, "builtins.list") and r[2] == (it,)):
                 plain_ok = True
